@@ -269,7 +269,7 @@ pub fn part_strings(ev: &mut Ev, model: &mut Model, opts: &Opts) {
 }
 
 fn run(ev: &mut Ev, model: &mut Model, opts: &Opts, roundtrip: bool) {
-    let n = opts.tier.pick(2500u64, 60_000u64);
+    let n = opts.tier.pick(6000u64, 60_000u64);
     for i in 0..n {
         let mut r = Rng::for_case(opts.seed ^ 0xB17, i);
         // ---- decode: single-line, term position -------------------------------------------
